@@ -32,6 +32,22 @@ CLAIMS = {
  'C08': dict(technique='TLC trace validation of storage variants (permutations, zero padding, full canonical/binary layouts) of blade-named generic operands against one reference value',
              text='In the specification operators are functions of operand denotations; every storage variant of a base case (all permutations for <=3 stored blades, zero-padded supersets up to the full 2^d layout in canonical and binary order) carries the same blade-named indeterminates and is validated by TLC against the single reference value, for 30 operators including inverse/division/outer series.',
              note=TB + 'd = 2, 3, 4; sampled base operands (<=4 stored blades before padding; <=2 for rational results).', ref='6 C08'),
+
+ 'C09': dict(technique='TLC model checking of the explicit cache/name-space/dispatch state machine (Kingdon.tla: all histories, all 2-3 thread interleavings, liveness) + TLC trace validation of instrumented real sessions (values vs reference/fresh algebra/snapshots; protocol events vs model state) incl. TLC-chosen thread schedules forced by a cooperative scheduler',
+             text='Kingdon.tla models one Algebra as a state machine (one action per GIL-atomic critical section: Lookup, GenStep, GenFail, PubNames, PubCache, Dispatch, Exec, Return); TLC checks DispatchExact, CacheMonotone, FailAtomic, PublishedBeforeCached over all histories of a bounded alphabet and all interleavings of 2-3 threads, and liveness. TLC simulation behaviours (incl. thread interleavings) are replayed on one long-lived externally instrumented algebra; every call is validated by TLC against the reference value, the same call on a fresh algebra and snapshots of all operands and earlier results; every recorded cache/name/dispatch event is replayed through the model state with the invariants evaluated at each step. The model with set-keyed names refutes DispatchExact: that defect (F1) was repaired in /repo.',
+             note=TB + 'CPython audit hooks and sys.monitoring; wrapper = marking decorator; schedules at the granularity of GIL-atomic dict operations; alphabet of the exhaustive model: 2-D algebra, 5 key tuples, gp/reverse/sw/div/registered/symbolic-registered; random histories beyond it (d=2,3).', ref='6 C09'),
+ 'C10': dict(technique='TLC model checking of GenOnce (action property of Kingdon.tla) + TLC trace validation of recorded compile / cache-store / name-publication events of histories that repeat every pattern with other values and coefficient types',
+             text='GenOnce (every look-up of a cached pattern is a hit; nothing is compiled, published or stored again for a cached pattern) is an action property checked over all sequential histories of the model, incl. composite operators and failing generations; on the real library every compile() made from kingdon/codegen.py (audit hook), every cache store and name publication is replayed through the model state by TLC for histories in which each (operator, key pattern) recurs with indeterminates, int, float, Fraction, numpy and sympy coefficients.',
+             note=TB + 'sys.addaudithook compile events whose caller is kingdon/codegen.py are the generation events; the first call of a symbolic multivector (custom_N) is not an operator generation.', ref='6 C10'),
+ 'C11': dict(technique='TLC trace validation of registered-program events: registered = plain function = Sem(program) (MultivectorRef!EvalTree) = fresh algebra; name resolution at call time by Kingdon.tla/TraceKingdon DispatchExact',
+             text='Programs over the README operator table (all depth-1 forms, sampled deeper trees, 1-3 arguments, plain and symbolic registration, with/without wrapper, same-named functions) run on formal indeterminates; TLC compares the registered result with the plain python function, with the semantics of the program tree computed in the reference, and with a fresh algebra; inside the listed grammar a registered function may raise only if the plain function raises.',
+             note=TB + 'harness/programs.py generates the source text; programs whose plain evaluation raises on indeterminates (sqrt/norm) constrain only wrong values. Known findings F4c, F1b.', ref='6 C11'),
+ 'C12': dict(technique='TLC trace validation: symbolic results as rational functions compared with the reference for all values; numeric evaluations (positional/keyword call, subs, numeric operator) compared with PolyRing!REvalQ of the symbolic result',
+             text='Symbolic operands (any mix of symbols and numbers, names chosen so that name order differs from creation order) are combined by 28 operators; TLC checks that the symbolic result equals the reference over the fraction field (a dropped blade must be identically zero) and that calling the result positionally (name order), by keyword, sympy substitution and the numeric operator all equal the symbolic result evaluated at the rational assignment; earlier results are called again after later ones.',
+             note=TB + 'sympy.Poly/together convert expressions; floats produced by python evaluation of rational constants are compared through the nearest fraction (denominator <= 1e5, 1e-7 relative); poles are skipped.', ref='6 C12'),
+ 'C13': dict(technique='TLC trace validation of the same generic-coefficient cases under all 16 option vectors against one reference value; graded-mode structural clause (complete grades) evaluated by TLC with AlgebraModel!IndicesForGrades',
+             text='The option vector {cse} x {graded} x {symbol class} x {wrapper} (+ pretty printing) is in the trace header and ignored by the reference; identical grade-block cases are replayed under all vectors and validated against the same value, so results coincide; graded mode: total operators must not raise and results store complete grades in canonical order. Known findings F5a/F5b (graded + degenerate metric).',
+             note=TB + 'd = 2, 3, 4; 31 operators; wrapper = marking decorator.', ref='6 C13'),
 }
 checks = []
 for p in props:
